@@ -362,6 +362,10 @@ package client
 //@   assert reset_accepted at call Store(accepted) : [C18] !bval(arg1)
 //@   assert reset_handshake at call Store(handshakeComplete) : [C18] !bval(arg1)
 //@   assert own_gate at call Store(handshakeCompleteChannel) : [C18] fresh(ival(arg1))
+// the gate the threads of this connection are started with - the local one and the one Ready and
+// the accept handler find in the client - is a channel made for this connection (a token left in
+// a channel shared with an earlier connection would open the gate before this handshake)
+//@   assert gate_belongs_to_this_connection at call NewInterruptableThreadComplete : [C18] fresh(handshakeCompleteChannel) && ival(aval(c.handshakeCompleteChannel)) == handshakeCompleteChannel
 
 // The session of a connection: a new random hash, the server session key derived from the
 // configured server key and that hash, the client session key from the client key and that hash.
